@@ -7,6 +7,7 @@ d R-SIBLING entry classifiers (fusion / circRNA / splice-altering) all decide by
 e decision table: the if/elif order denylist -> keep-all-noncoding -> keep-all-coding -> expression
 """
 import ast
+import re
 from sa.model import unparse, norm_stmt, call_name, kwarg, walk_no_nested, AnalysisError
 from sa.cfg import CFG, iteration_paths, literal
 from sa import guards as G
@@ -49,9 +50,19 @@ def run(chk, repo):
     ki = [n for n in walk_no_nested(loop) if isinstance(n, ast.Assign) and unparse(n.targets[0]) == 'keep']
     ok = len(ki) == 1 and isinstance(ki[0].value, ast.List) and not ki[0].value.elts and ki[0] in loop.body
     chk.ob('C19.a', 'keep is reset for every peptide', repo.loc(f, loop), ok, 'keep list is not reset per peptide', key=F + '::keep-reset', fn=f.qual)
-    lab = [n for n in walk_no_nested(loop) if isinstance(n, ast.Assign) and unparse(n.targets[0]) == 'label']
-    ok = len(lab) == 1 and unparse(lab[0].value) == 'label_delimiter.join([str(x) for x in keep])'
-    chk.ob('C19.a', 'output header = kept entries only', repo.loc(f, loop), ok, 'header not rebuilt from keep', key=F + '::label', fn=f.qual)
+    # the header written back: <delimiter>.join(str(e) for e in keep), through whatever locals
+    from sa import sem as _sa
+    from sa.canon import _Expr as _CanonExpr
+    pv = loop.target.id if isinstance(loop.target, ast.Name) else 'peptide'
+    descs = [n for n in walk_no_nested(loop) if isinstance(n, ast.Assign) and unparse(n.targets[0]) == f'{pv}.description']
+    ok = False
+    got_lab = None
+    if len(descs) == 1:
+        v = _sa.expand_names(f.node, descs[0], descs[0].value, allow_calls=('join', 'str'))
+        v = _sa.comp_alpha(_CanonExpr().visit(ast.fix_missing_locations(v)))
+        got_lab = unparse(v)
+        ok = bool(re.match(r'^[\w.]+\.join\(\(str\(_c0\) for _c0 in keep\)\)$', got_lab))
+    chk.ob('C19.a', 'output header = kept entries only', repo.loc(f, loop), ok, f"header not rebuilt from keep ({got_lab})", key=F + '::label', fn=f.qual)
 
     # ------------------------------------------------------------------ b
     chk.rule('C19.b', 'R-POLARITY: cutoff and miscleavage bounds', 4)
@@ -65,24 +76,48 @@ def run(chk, repo):
             any(isinstance(a, ast.Assign) and unparse(a.targets[0]) == 'should_keep' for a in anc)
     chk.ob('C19.b', 'cutoff: single occurrence `exprs[tx] >= cutoff` under all(...) into should_keep', repo.loc(f, occ[0]) if occ else f.where, ok and ctx,
            f"cutoff occurrences {[unparse(o) for o in occ]}: a stricter cutoff could keep more", key=F + '::cutoff', fn=f.qual)
-    for idx, (want_lit, what) in enumerate(((('len(misc) < miscleavage_range[0]', True), 'lower'), (('miscleavage_range[1] < len(misc)', True), 'upper'))):
-        tests = [n for n in cfg.nodes if n.kind == 'test' and want_lit in {literal(c) for c in G.conjuncts(n.ast)}]
-        ok = len(tests) == 1
-        detail = f"{what} bound test not found"
-        if ok:
-            cj = {literal(c) for c in G.conjuncts(tests[0].ast)}
-            guard = (f"miscleavage_range[{idx}] is None", False)
-            ok = cj == {want_lit, guard}
-            detail = f"{what} bound test is '{unparse(tests[0].ast)}'"
-            ifn = next(n for n in walk_no_nested(loop) if isinstance(n, ast.If) and n.test is tests[0].ast)
-            ok = ok and G.block_only_skips(ifn.body)
+    # miscleavage bounds, decided from the must-facts at the rejecting `continue`s of the peptide loop: for bound i the reject needs
+    # (bound i is not None) and (count beyond bound i), nothing else apart from the optional `any(bound is not None)` entry test
+    conts = _sa.facts_where(f.node, lambda st: isinstance(st, ast.Continue))
+    chains_b = _sa.block_chains(f.node)
+    found = {0: [], 1: []}
+    for st_, fx in conts:
+        if fx is None or not any(st_ is x for x in ast.walk(loop)):
+            continue
+        lits = _sa.sure_literals(fx)
+        for (t, p) in lits:
+            m0 = re.match(r'^len\((.+)\) < miscleavage_range\[0\]$', t)
+            m1 = re.match(r'^miscleavage_range\[1\] < len\((.+)\)$', t)
+            for idx, m_ in ((0, m0), (1, m1)):
+                if m_ and p:
+                    cnt = ast.parse(m_.group(1), mode='eval').body
+                    cnt = _sa.expand_names(f.node, st_, cnt, chains=chains_b, allow_calls=('find_all_enzymatic_cleave_sites',))
+                    is_sites = isinstance(cnt, ast.Call) and call_name(cnt) == 'find_all_enzymatic_cleave_sites' and unparse(cnt.func.value) == pv
+                    rest = {l for l in lits if l != (t, p)}
+                    guard = (f"miscleavage_range[{idx}] is None", False)
+                    extra = {l for l in rest - {guard} if not (l[0].startswith('any(') and 'miscleavage_range' in l[0] and 'is not None' in l[0] and l[1])
+                             and not re.match(r'^(len\(.+\) < miscleavage_range\[0\]|miscleavage_range\[1\] < len\(.+\)|miscleavage_range\[[01]\] is None)$', l[0])}
+                    found[idx].append((is_sites and guard in rest and not extra, sorted(lits)))
+    for idx, what in ((0, 'lower'), (1, 'upper')):
+        ok = len(found[idx]) == 1 and found[idx][0][0]
         chk.ob('C19.b', f"miscleavage {what} bound: reject iff bound is not None and count {'<' if idx == 0 else '>'} bound", f.where, ok,
-               f"{detail} (expected `miscleavage_range[{idx}] is not None and ...`): a bound of 0 must still be applied and the comparison must be a reject",
-               key=F + f'::misc-{what}', fn=f.qual)
-    outer = [n for n in walk_no_nested(loop) if isinstance(n, ast.If) and 'miscleavage_range' in unparse(n.test) and any('find_all_enzymatic_cleave_sites' in unparse(s) for s in n.body)]
-    ok = len(outer) == 1 and unparse(outer[0].test) == 'any((x is not None for x in miscleavage_range))'
+               f"{what} bound reject is taken under {[x[1] for x in found[idx]] or 'no recognisable test'} (expected `miscleavage_range[{idx}] is not None and ...`): a bound of 0 must still be "
+               "applied and the comparison must be a reject", key=F + f'::misc-{what}', fn=f.qual)
+    # the filter is entered whenever a bound is given: any test on the way to the cleave-site count is `any(x is not None for x in miscleavage_range)`
+    site_stmts = _sa.facts_where(f.node, lambda st: _sa.own_stmt(st) and bool(_sa.calls_in_stmt(st, 'find_all_enzymatic_cleave_sites')))
+    site_tests = _sa.facts_at_tests(f.node, lambda e: any(isinstance(c, ast.Call) and call_name(c) == 'find_all_enzymatic_cleave_sites' for c in ast.walk(e)))
+    entry_lits = [(_sa.sure_literals(fx), st_) for st_, fx in site_stmts] + [(_sa.sure_literals(fx), own) for _e, own, fx in site_tests]
+    ok = bool(entry_lits)
+    bad_entry = None
+    for lits, _st in entry_lits:
+        for (t, p) in lits:
+            fine = (t.startswith('any(') and 'miscleavage_range' in t and 'is not None' in t and p) or \
+                (re.match(r'^miscleavage_range\[[01]\] is None$', t) and not p) or \
+                bool(re.match(r'^(len\(.+\) < miscleavage_range\[0\]|miscleavage_range\[1\] < len\(.+\))$', t))
+            if not fine:
+                ok, bad_entry = False, (t, p)
     chk.ob('C19.b', 'miscleavage filter entered when any bound is not None', f.where, ok,
-           f"outer guard '{unparse(outer[0].test) if outer else None}'", key=F + '::misc-outer', fn=f.qual)
+           f"the miscleavage count is only reached under {bad_entry}", key=F + '::misc-outer', fn=f.qual)
 
     # ------------------------------------------------------------------ c
     chk.rule('C19.c', 'R-TAINT literal', 1)
@@ -112,21 +147,35 @@ def run(chk, repo):
 
     # ------------------------------------------------------------------ e
     chk.rule('C19.e', 'decision order of the keep rule', 1)
-    chain = []
-    n = next((x for x in walk_no_nested(loop) if isinstance(x, ast.If) and unparse(x.test).startswith('is_in_denylist')), None)
-    while n is not None:
-        chain.append((unparse(n.test), [norm_stmt(s) for s in n.body][:1]))
-        if len(n.orelse) == 1 and isinstance(n.orelse[0], ast.If):
-            n = n.orelse[0]
+    # the keep decision as a boolean function of its conditions, compared by truth table with the documented decision list; the way the
+    # chain is nested or which intermediate locals it uses does not matter
+    from sa import sem as _s19
+    eloops = [l for l in walk_no_nested(loop) if isinstance(l, ast.For) and any(isinstance(x, ast.Assign) and unparse(x.targets[0]) == 'should_keep' for x in ast.walk(l))]
+    eloops = [l for l in eloops if not any(m is not l and any(x is m for x in ast.walk(l)) for m in eloops)]      # innermost
+    if len(eloops) != 1:
+        raise AnalysisError(f"anchor={F}: the loop that decides should_keep not found")
+    PUREC = ('get_transcript_ids', 'is_circ_rna', 'is_fusion', 'is_splice_altering', 'any', 'all')
+    got = _s19.decision_value(f.node, eloops[0].body, 'should_keep', allow_calls=PUREC)
+    ev_ = eloops[0].target.id if isinstance(eloops[0].target, ast.Name) else 'entry'
+    TX = f'{ev_}.get_transcript_ids()'
+    deny = '(denylist is not None and peptide.seq in denylist)'
+    canon = f'((not {ev_}.is_circ_rna()) and {TX}[0] in coding_transcripts)'
+    allnc = f'(not any(x in coding_transcripts for x in {TX}))'
+    allc = f'all(x in coding_transcripts for x in {TX})'
+    expr = f'({ev_}.is_fusion() or {ev_}.is_circ_rna() or {ev_}.is_splice_altering() or all(exprs[tx] >= cutoff for tx in {TX}))'
+    want_e = ast.parse(f'False if ({deny} and not (keep_canonical and {canon})) else (True if (keep_all_noncoding and {allnc}) else '
+                       f'(True if (keep_all_coding and {allc}) else (True if exprs is None else {expr})))', mode='eval').body
+    if got is None:
+        chk.undecided('C19.e', 'denylist -> noncoding -> coding -> expression', repo.loc(f, loop), 'the value of should_keep could not be expressed as one decision', key=F + '::decision-order', fn=f.qual)
+    else:
+        eqv, wit = _s19.tt_equal(got, want_e)
+        if eqv is None:
+            chk.undecided('C19.e', 'denylist -> noncoding -> coding -> expression', repo.loc(f, loop), f"truth table too large ({wit})", key=F + '::decision-order', fn=f.qual)
         else:
-            chain.append(('else', [type(s).__name__ for s in n.orelse]))
-            n = None
-    want = [('is_in_denylist and (not (keep_canonical and is_canonical))', ['should_keep = False']),
-            ('keep_all_noncoding and all_noncoding', ['should_keep = True']),
-            ('keep_all_coding and all_coding', ['should_keep = True']),
-            ('exprs is not None', ['tx_ids = entry.get_transcript_ids()']),
-            ('else', ['Assign'])]
-    chk.ob('C19.e', 'denylist -> noncoding -> coding -> expression', repo.loc(f, loop), chain == want, f"decision chain {chain}", key=F + '::decision-order', fn=f.qual)
+            chk.ob('C19.e', 'denylist -> noncoding -> coding -> expression', repo.loc(f, loop), eqv,
+                   'the keep decision differs from the documented decision list (denylisted unless canonical and keep-canonical: drop; else keep-all-noncoding / keep-all-coding: keep; '
+                   f"else no expression table: keep; else exemptions or expression >= cutoff) when {sorted(k for k, v in (wit or {}).items() if v)} hold and "
+                   f"{sorted(k for k, v in (wit or {}).items() if not v)} do not", key=F + '::decision-order', fn=f.qual)
     ex = [x for x in walk_no_nested(loop) if isinstance(x, ast.Assign) and unparse(x.targets[0]) == 'should_keep' and isinstance(x.value, ast.BoolOp)]
     ok = len(ex) == 1 and [unparse(v).split('(')[0] for v in ex[0].value.values] == ['entry.is_fusion', 'entry.is_circ_rna', 'entry.is_splice_altering', 'all']
     chk.ob('C19.e', 'expression rule: fusion or circRNA or splice-altering or all transcripts >= cutoff', repo.loc(f, loop), ok,
